@@ -311,7 +311,7 @@ class Arr:
         return ds, ps
 
     # ------------------------------------------------------------------ one checked scrub
-    def scrub(self, parg, older, test=None, eio=None, dt=None, tag='walk'):
+    def scrub(self, parg, older, test=None, eio=None, dt=None, tag='walk', no_oracle=False):
         """parg: None | 'bad' | 'new' | 'full' | int;  older: None | int;  test: None | ('at', n) | ('even',)
         eio: None | (disk, pos).  Runs the binary and the model, compares, reports through self.viol."""
         if self.failed:
@@ -351,14 +351,16 @@ class Arr:
         # ---- model: limits + selection
         mline = 'plan %d %d %s %s %d %s' % (1 if test and test[0] == 'even' else 0, test[1] if test and test[0] == 'at' else 0,
                                             'default' if parg is None else parg, '-' if older is None else older, now, ' '.join(map(str, ws)))
-        if (isinstance(parg, str) and parg not in ('bad', 'new', 'full') and not parg.isdigit()) or (isinstance(older, str) and not older.isdigit()):
+        def numeric(x):
+            return x.isdigit() or (no_oracle and x[:1] == '-' and x[1:].isdigit())
+        if (isinstance(parg, str) and parg not in ('bad', 'new', 'full') and not numeric(parg)) or (isinstance(older, str) and not numeric(older)):
             mo = 'badarg'          # strtoul leaves trailing characters: "Invalid plan/percentage" / "Invalid number of days"
         else:
             mo = self.model.ask(mline)
         case['model_line'] = mline
         case['model'] = mo
         # ---- independent oracle: the property, straight from its text
-        oinfo = orc.expected_selection(ws, parg, older, now, test)
+        oinfo = orc.expected_selection(ws, parg, older, now, test) if not no_oracle else {'selected': None, 'limits': None}
         key = ('%s' % (parg if not isinstance(parg, int) else 'pct'), older is not None, bool(test))
         self.stats['plans'][str(key)] = self.stats['plans'].get(str(key), 0) + 1
 
@@ -405,7 +407,7 @@ class Arr:
         refreshed = set(k for k, b in enumerate(blocks2) if b['used'] and b['time'] == t8 and blocks[k]['time'] != t8)
         observed = refreshed | errpos
         msel_set = set(k for k, s in enumerate(msel) if s)
-        osel = oinfo['selected']
+        osel = oinfo['selected'] if not no_oracle else msel_set
         case['observed_selected'] = sorted(observed)
         case['model_selected'] = sorted(msel_set)
         # ---- per-stripe outcome through the model, in position order, counters threaded
@@ -448,7 +450,7 @@ class Arr:
                           (sorted(observed), sorted(msel_set), sorted(msel_set - observed), sorted(observed - msel_set)), case, 'c')
         elif osel != msel_set:
             self.viol('drift_select_oracle', 'MODEL-DRIFT: model and tool select %s, the property oracle %s' % (sorted(msel_set), sorted(osel)), case, 'drift')
-        for msg in orc.plan_properties(ws, parg, older, now, test, observed, tags):
+        for msg in ([] if no_oracle else orc.plan_properties(ws, parg, older, now, test, observed, tags)):
             self.viol('prop', 'plan property violated by the tool: ' + msg, case, 'c')
         # books
         if ws2 != exp_words:
@@ -729,6 +731,39 @@ def install(a, groups, m):
         a.scrub('bad', None, dt=rng.choice([DAY, DAY, 2 * DAY, DAY + 5, 5 * DAY]), tag='install')
 
 
+def probe_wraparound(tool, shim, model_exe, chk, seed):
+    """replay of the witnesses of C15_plan_number_range_refuted / C15_older_number_range_refuted on the binary:
+    numbers whose low 32 bits are a negative int pass the range test of snapraid.c and act as named plans.
+    Model and binary must agree (the oracle of the property is not consulted: it would refuse these numbers)."""
+    import random
+    stats = {'tool_runs': 0, 'scrubs': 0, 'fixes': 0, 'refused': 0, 'selected_total': 0, 'plans': {}, 'cases': [], 'eio_scrubs': 0,
+             'pending_scrubs': 0, 'changed_scrubs': 0, 'outcomes': {'verified': 0, 'damaged': 0, 'inconclusive': 0}}
+    found = []
+
+    def viol(tag, what, replay_obj, kind):
+        found.append((tag, what, replay_obj, kind))
+    m = Model(model_exe)
+    a = Arr('probe', tool, shim, m, random.Random(seed), 3, 2, 1700000000, viol, stats)
+    obs = []
+    try:
+        a.add_files([(d, 1) for _ in range(12) for d in a.disks])
+        a.sync()
+        a.scrub(30, 0, dt=20 * DAY, tag='probe')
+        for parg, older in (('4294967292', None), ('4294967293', None), ('-2', None), ('4294967295', None), ('18446744073709551612', None),
+                            (50, '4294967295'), ('4294967292', 3), ('4294967396', None), ('99999999999999999999999', None)):
+            a.failed = False
+            before = len(stats['cases']) + stats['refused']
+            r0 = stats['refused']
+            a.scrub(parg, older, dt=15 * DAY, tag='probe', no_oracle=True)
+            c = stats['cases'][-1] if len(stats['cases']) + stats['refused'] > before and stats['refused'] == r0 else None
+            obs.append('-p %s%s -> %s' % (parg, '' if older is None else ' -o %s' % older,
+                                          'refused' if c is None else 'accepted, %d of %d stripes scrubbed, limits %s' % (c['selected'], c['used'], c['limits'] or 'none')))
+    finally:
+        m.close()
+        shutil.rmtree(a.root, ignore_errors=True)
+    return obs, found, stats
+
+
 # ---------------------------------------------------------------------------------------------------------
 # failing-input search on the extracted model (boolean forms of the theorems), no binary involved
 
@@ -953,6 +988,20 @@ def main(tier, replay=None):
             print('# %s' % what)
         print('replay: %d violation(s) reproduced' % len(chk.violations))
         return 1 if chk.violations else 0
+
+    # ---- witnesses of the *_refuted theorems about the -p / -o numbers, replayed on the binary
+    if not replay:
+        try:
+            obs, pfound, pstats = probe_wraparound(tool, shim, model_exe, chk, chk.seed)
+            chk.cov['plan_number_wraparound_observed'] = obs
+            for tag, what, robj, kind in pfound[:2]:
+                chk.violation('probe_' + tag, ('MODEL-DRIFT: ' if not what.startswith('MODEL-DRIFT') else '') +
+                              'witness of C15_plan_number_range_refuted no longer behaves as the model says: ' + what, robj, no_input=True)
+            if any('4294967292 ->' in o and 'accepted' in o for o in obs):
+                chk.notes.append('observation (not part of the property text): `scrub -p 4294967292` is accepted and acts as `-p full`; '
+                                 'snapraid.c:660 stores strtoul() in an int before testing `plan > 100` (C15_plan_number_range_refuted)')
+        except Exception as e:
+            chk.notes.append('wrap-around probe failed: %s' % str(e)[:200])
 
     # ---- failing-input search on the model and the exhaustive stripe book-keeping comparison
     mbad, nontriv_m, nm = model_search(chk, model_exe, 4000 if tier == 'quick' else 40000)
